@@ -237,7 +237,128 @@ class C20Lemma(LemmaUnit):
                [L == z3.Concat(child, z3.Unit(NONE)), z3.Concat(taken, z3.Unit(NONE)) == L], taken == child)
 
 
+# ---------------------------------------------------------------- the wiring that makes "started through mpservice's Process" cover ProcessServlet workers and process pools
+class PoolInit(Unit):
+    """concurrent.futures.ProcessPoolExecutor.__init__ (mpservice's): without an explicit context the pool is built on MP_SPAWN_CTX (whose Process is
+    SpawnProcess: the log forwarding above applies to every pool worker); the caller's max_workers / context / other arguments go to the stdlib constructor once."""
+    prop = 'C20'
+    file = 'concurrent/futures/__init__.py'
+    qual = 'ProcessPoolExecutor.__init__'
+    canaries = (('pool built on the stdlib default context (plain processes: child logs are lost)', '            mp_context = MP_SPAWN_CTX', '            mp_context = None', ''),)
+
+    def setup(self, ex):
+        from pyvc.core import KwPack
+        st = St()
+        self.given = z3.Bool('context_given')
+        self.ctx = z3.Const('caller_context', Val)
+        st.assume(self.ctx != NONE)
+        self.mw = z3.Const('max_workers', Val)
+        self.kw = KwPack(z3.Const('kwargs', Val))
+        st.env.update(self=Rec(ex, 'self'), max_workers=self.mw, mp_context=z3.If(self.given, self.ctx, NONE), kwargs=self.kw)
+        self.spawn_ctx = z3.Const('MP_SPAWN_CTX', Val)
+        st.assume(self.spawn_ctx != NONE)
+        ex.globals['MP_SPAWN_CTX'] = self.spawn_ctx
+        st.ghost['init'] = ()
+        return st
+
+    def on_call(self, ex, st, e, src):
+        if src == 'super().__init__':
+            def f(s, ak):
+                a, k = ak
+                s = s.fork()
+                s.ghost['init'] = s.ghost['init'] + ((tuple(a), dict(k)),)
+                return [('ok', s, NONE)]
+            return ex.bind(ex.evargs(e, st), f)
+        return None
+
+    def post(self, ex, outs):
+        from pyvc.core import KwPack
+        for k, s, p in outs:
+            i = s.ghost['init']
+            if k not in ('normal', 'return') or len(i) != 1:
+                ex.oblige(s, 'exit: the stdlib constructor is called exactly once, no exception of its own', False)
+                continue
+            a, kw = i[0]
+            got_ctx = kw.get('mp_context', a[1] if len(a) > 1 else None)
+            got_mw = kw.get('max_workers', a[0] if len(a) > 0 else None)
+            pack = kw.get('**')
+            ex.oblige(s, 'exit: [C20] the pool is built on the caller\'s context, or -- none given -- on MP_SPAWN_CTX (SpawnProcess workers: their log records reach the parent); max_workers and the other arguments are the caller\'s',
+                      z3.And(box(ex, got_ctx) == z3.If(self.given, self.ctx, self.spawn_ctx), box(ex, got_mw) == self.mw, z3.BoolVal(isinstance(pack, KwPack) and pack.val is self.kw.val)) if got_ctx is not None and got_mw is not None else z3.BoolVal(False))
+
+
+class GetContext(Unit):
+    """SpawnContext.get_context: the default and 'spawn' give THIS context (so code asking MP_SPAWN_CTX for a context keeps SpawnProcess)."""
+    prop = 'C20'
+    file = CTX
+    qual = 'SpawnContext.get_context'
+    canaries = (("get_context() falls back to the stdlib context", "        if method is None or method == 'spawn':\n            return self", "        if method == 'mpservice':\n            return self", ''),)
+
+    def setup(self, ex):
+        st = St()
+        self.me = Rec(ex, 'self', immutable=True)
+        self.method = z3.Const('method', Val)
+        st.env.update(self=self.me, method=self.method)
+        self.other = z3.Const('stdlib_context', Val)
+        return st
+
+    def on_call(self, ex, st, e, src):
+        if src == 'super().get_context':
+            return ex.bind(ex.evargs(e, st), lambda s, ak: [('ok', s, self.other)])
+        return None
+
+    def post(self, ex, outs):
+        for k, s, p in outs:
+            if k in ('normal', 'return'):
+                mine = z3.Or(self.method == NONE, self.method == box(ex, z3.StringVal('spawn')))
+                ex.oblige(s, 'exit: for method None / "spawn" returns this very context; anything else is the stdlib\'s answer', z3.If(mine, z3.BoolVal(unbox_handle(ex, p) is self.me), z3.BoolVal(unbox_handle(ex, p) is not self.me)) if True else None)
+            else:
+                ex.oblige(s, 'exit: does not raise', False)
+
+
+class ProcessWiring(Unit):
+    """Module-level wiring (read from the AST of the real files; no code is executed): SpawnContext.Process is SpawnProcess, MP_SPAWN_CTX is a SpawnContext(),
+    mpservice.multiprocessing.Process is SpawnProcess, and ProcessServlet imports THAT Process."""
+    prop = 'C20'
+    file = CTX
+    qual = 'SpawnContext'
+
+    def run(self, override=None):
+        import ast, hashlib
+        from pyvc.unit import load_source, find_function
+        from pyvc.core import Obligation
+        res = {'unit': self.name, 'status': 'ok', 'obligations': [], 'covers': {}, 'ignored': [], 'sha': None, 'error': None, 'paths': 1, 'lineno': None, 'unreached': []}
+        self.ex = None
+        try:
+            ctx_src = load_source(CTX, override if self.file == CTX else None)
+            ctx = ast.parse(ctx_src)
+            init = ast.parse(load_source('multiprocessing/__init__.py', None))
+            servlet = ast.parse(load_source('mpserver/_servlet.py', None))
+            cls = find_function(ctx, 'SpawnContext')
+        except (KeyError, SyntaxError, FileNotFoundError) as e:
+            res['status'], res['error'] = 'undecided', f'cannot read the wiring: {e!r}'
+            return res
+        res['lineno'] = cls.lineno
+        res['sha'] = hashlib.sha256(ast.get_source_segment(ctx_src, cls).encode()).hexdigest()
+
+        def assigns(body, name):
+            return [ast.unparse(x.value) for x in body if isinstance(x, ast.Assign) and len(x.targets) == 1 and ast.unparse(x.targets[0]) == name]
+
+        def imports(tree, module_suffixes, name):
+            return any(isinstance(x, ast.ImportFrom) and (x.module or '').endswith(module_suffixes) and any(a.name == name and a.asname in (None, name) for a in x.names) for x in ast.walk(tree))
+        facts = [
+            ('SpawnContext.Process is SpawnProcess (every process made through the context forwards its log records)', assigns(cls.body, 'Process') == ['SpawnProcess'] and [ast.unparse(b) for b in cls.bases] == ['multiprocessing.context.SpawnContext']),
+            ('MP_SPAWN_CTX is an instance of this SpawnContext', assigns(ctx.body, 'MP_SPAWN_CTX') == ['SpawnContext()']),
+            ('mpservice.multiprocessing.Process is SpawnProcess (imported from .context)', assigns(init.body, 'Process') == ['SpawnProcess'] and imports(init, ('context',), 'SpawnProcess')),
+            ('ProcessServlet creates its workers with mpservice.multiprocessing.Process', imports(servlet, ('mpservice.multiprocessing', '.multiprocessing'), 'Process') and not assigns(servlet.body, 'Process')),
+        ]
+        for name, ok in facts:
+            ob = Obligation(f'wiring: {name}', [], z3.BoolVal(bool(ok)), [cls.lineno], 'assert')
+            ob.unit = self.name
+            res['obligations'].append(ob)
+        return res
+
+
 from contracts.c12 import ProcInit, ProcInitNone       # noqa: E402
-UNITS = [ProcInit, ProcInitNone, RunLogger, CollectResult, ChildRunLogging, ProcessRunNoTarget, StartUnit, C20Lemma]
+UNITS = [ProcInit, ProcInitNone, RunLogger, CollectResult, ChildRunLogging, ProcessRunNoTarget, StartUnit, PoolInit, GetContext, ProcessWiring, C20Lemma]
 SCENARIOS = [('', 'replay/scenarios/c20_child_logs.py', (50, 2000)), ('', 'replay/scenarios/c20_child_logs.py', (3000, 200)), ('', 'replay/scenarios/c20_child_logs.py', (0, 1))]
 THOROUGH_SCENARIOS = [('', 'replay/scenarios/c20_child_logs.py', (20000, 100), 300), ('', 'replay/scenarios/c20_child_logs.py', (100, 100000), 300)]
